@@ -179,6 +179,51 @@ def _pass_history(chk, rng, rp, ip, r, plug):
     return ok
 
 
+def sequence_case(chk, rng, layout):
+    """solved sequences (flat, nested, nested twice): the elongation coefficients of every deformation unit in the tree - passes, inner sequences,
+    the outer sequence - are mutually consistent and compose: a unit's elongation is the product of its parts' elongations"""
+    from pyroll.core import Profile, RollPass, Roll, Transport, PassSequence, CircularOvalGroove, RoundGroove, BaseRollPass
+    def oval(lbl, d, r2):
+        return RollPass(label=lbl, roll=Roll(groove=CircularOvalGroove(depth=d, r1=6e-3, r2=r2), nominal_radius=160e-3, rotational_frequency=1), gap=2e-3)
+    def rnd(lbl, d, r2):
+        return RollPass(label=lbl, roll=Roll(groove=RoundGroove(r1=1e-3, r2=r2, depth=d), nominal_radius=160e-3, rotational_frequency=1), gap=2e-3)
+    t = lambda l: Transport(label=l, duration=1)     # noqa
+    if layout == 'flat':
+        seq = PassSequence([oval('o1', 8e-3, 40e-3), t('t1'), rnd('r2', 11.5e-3, 12.5e-3), t('t2'), oval('o3', 6e-3, 35e-3)])
+    elif layout == 'nested':
+        seq = PassSequence([oval('o1', 8e-3, 40e-3), t('t1'), PassSequence([rnd('r2', 11.5e-3, 12.5e-3), t('t2'), oval('o3', 6e-3, 35e-3)], label='line B')])
+    elif layout == 'nested-first':
+        seq = PassSequence([PassSequence([oval('o1', 8e-3, 40e-3), t('t1')], label='line A'), rnd('r2', 11.5e-3, 12.5e-3), t('t2'), oval('o3', 6e-3, 35e-3)])
+    else:
+        seq = PassSequence([PassSequence([oval('o1', 8e-3, 40e-3), t('t1'), PassSequence([rnd('r2', 11.5e-3, 12.5e-3)], label='inner')], label='line A'), t('t2'),
+                            oval('o3', 6e-3, 35e-3)])
+    ip = Profile.round(diameter=30e-3, temperature=1200 + 273.15, strain=0, material="C45", flow_stress=100e6, length=rng.choice([1, 2.5, 12.0]))
+    seq.solve(ip)
+    def walk(u):
+        yield u
+        for c in getattr(u, 'units', []) if isinstance(u, PassSequence) else []:
+            yield from walk(c)
+    for u in walk(seq):
+        if not isinstance(u, (PassSequence, BaseRollPass)):
+            continue
+        data = {'kind': 'sequence', 'layout': layout, 'unit': f"{type(u).__name__} {u.label!r}"}
+        e = u.elongation
+        ratio = u.in_profile.cross_section.area / u.out_profile.cross_section.area
+        parts = [c for c in u.units if isinstance(c, (PassSequence, BaseRollPass))] if isinstance(u, PassSequence) else []
+        ok = close(e, ratio, 1e-6) and close(u.log_elongation, math.log(e)) and close(u.abs_elongation, u.out_profile.length - u.in_profile.length)
+        ok = ok and close(u.rel_elongation, u.abs_elongation / u.in_profile.length) and close(u.rel_elongation, e - 1, 1e-6)
+        ok = ok and close(u.out_profile.length, e * u.in_profile.length, 1e-6)
+        if parts:
+            ok = ok and close(e, math.prod(c.elongation for c in parts), 1e-6) and close(u.log_elongation, sum(c.log_elongation for c in parts), 1e-6)
+        chk.cov['evaluations'] += 1
+        if not ok:
+            chk.fail('sequence-coefficients', f"[{layout}] {data['unit']}: elongation {e:.6g}, area ratio {ratio:.6g}, log_elongation {float(u.log_elongation):.6g}, "
+                     f"rel_elongation {float(u.rel_elongation):.6g}, out/in length {u.out_profile.length / u.in_profile.length:.6g}, product of its parts "
+                     f"{math.prod(c.elongation for c in parts) if parts else float('nan'):.6g}: not mutually consistent", data)
+            return False
+    return True
+
+
 def oracle(chk, n):
     rng = random.Random(chk.seed + 1700)
     seen = set()
@@ -218,6 +263,11 @@ def oracle(chk, n):
         ev += 1
         seen.add(('p', i))
         pass_case(chk, rng, i)
+    for layout in ('flat', 'nested', 'nested-first', 'nested-twice'):
+        ev += 1
+        seen.add(('q', layout))
+        if chk.failures or not sequence_case(chk, rng, layout):
+            break
     chk.cov['evaluations'] += ev
     chk.cov['distinct_nontrivial'] += len(seen)
 
@@ -234,5 +284,9 @@ def replay(data):
         ok = thermal_case(chk, inp['k'], inp['d'], inp['c'], inp['cls'])
     elif k == 'shape':
         ok = shape_case(chk, inp['shape'], inp['a'], inp['b'], inp['r'])
+    elif k == 'sequence':
+        ok = sequence_case(chk, random.Random(0), inp['layout'])
+    elif k == 'pass':
+        ok = all(pass_case(chk, random.Random(j), j) for j in range(4))
     print("replay:", "property holds on this input" if ok else "FAILS: " + chk.failures[0].what)
     return 0 if ok else 1
